@@ -325,6 +325,9 @@ def check(pid, tier, jobs, seed, only_group=None, verbose=False):
             seen_known.add((it['group'], it['label'], it['sig']))
     really_unconfirmed = [(it, res) for it, res in unconfirmed
                           if (it['group'], it['label'], it['sig']) not in seen_repro | seen_known]
+    for n_, (it, res) in enumerate(really_unconfirmed[:5]):
+        with open(os.path.join(ROOT, '.cache', f'unconfirmed-{pid}-{n_}.json'), 'w') as f:
+            json.dump(dict(item=it, result=res), f, indent=1, default=str)
     for it, res in really_unconfirmed:
         harness_errors.append(f"counterexample did not reproduce on unpatched code: group={it['group']} "
                               f"label={it['label']} sig={it['sig']} ({res.get('why') or res.get('error')})")
